@@ -12,8 +12,8 @@
    status list has num_players entries (UdpProtocol::on_input, Endpoint model); fewer than 2^31
    frames (Frame = i32).  [sp_hist ops] is the host's timeline: the values of frame 0, 1, 2, ...
    No bound on max_frames_behind / catchup_speed is needed for any of the statements. *)
+From GGRS Require Import Queue QueueProofs Sync P2P Session SessionProofs SessionSparse SessionProgress SessionSparse2 SessionTimeline SessionTimelineSparse.
 From GGRS Require Import Base Consts Spectator SpectatorProofs.
-From GGRS Require Import Queue QueueProofs Sync P2P Session SessionProofs SessionProgress SessionTimeline.
 Open Scope Z_scope.
 
 (* (a) the ring.  In every reachable state, for every frame f: inputs_at_frame f answers
@@ -143,7 +143,7 @@ Check C06_no_panic : forall (n mfb cs : Z) (ops : list sp_hop),
 
 (* ---------------------------------------------------------------------------------------------------
    HOST HALF (P2PSession::send_confirmed_inputs_to_spectators; model coq/P2P.v, `session` correspondence
-   level with spectator puppets).  Space: C01's (props/C01.v) with any number nspec >= 1 of spectators.
+   level with spectator puppets).  Space: C01's (props/C01.v; both saving modes) with any number nspec >= 1 of spectators.
    After ANY run inside the space, everything the host has handed to its spectator endpoints - all calls
    concatenated ([all_spec_sends]) - is frame 0, 1, 2, ..., next_spectator_frame - 1: each frame exactly
    once, in order, each with the inputs the host holds for it ([held_at gs f]: for every player the
@@ -154,14 +154,18 @@ Check C06_no_panic : forall (n mfb cs : Z) (ops : list sp_hop),
    frame n. *)
 Theorem C06_host_broadcast_is_confirmed_timeline :
   forall (predict : Z -> Z), (forall x, predict (predict x) = predict x) -> predict 0 = 0 ->
-  forall (ops : list sop) (n w d : Z) (kinds : list pkind) (eps : list (list Z)) (nspec : nat) (p : p2p) (outs : list (pout * apires)),
+  forall (sparse : bool) (ops : list sop) (n w d : Z) (kinds : list pkind) (eps : list (list Z)) (nspec : nat) (p : p2p) (outs : list (pout * apires)),
   1 <= w -> 0 <= d -> w + d + 3 <= INPUT_QUEUE_LENGTH -> 0 < n -> Z.of_nat (length kinds) = n -> players_only kinds -> (0 < nspec)%nat ->
-  srun_in predict (session_start n w false d kinds eps nspec) ops = Ok (p, outs) ->
-  exists gs, QS w d p gs /\
+  srun_in predict (session_start n w sparse d kinds eps nspec) ops = Ok (p, outs) ->
+  exists gs, QSg sparse w d p gs /\
     all_spec_sends outs = map (fun f => (f, held_at gs f)) (zrange_from 0 (Z.to_nat (ps_next_spec p))) /\
     0 <= ps_next_spec p /\ s_last_confirmed (ps_sync p) + 1 <= ps_next_spec p /\
     Forall (fun g : ghost => ps_next_spec p <= hlen (fst g)) gs.
-Proof. exact host_broadcast_is_confirmed_timeline. Qed.
+Proof.
+  intros predict Hi Hz [|].
+  - exact (sparse_host_broadcast_is_confirmed_timeline predict Hi Hz).
+  - exact (host_broadcast_is_confirmed_timeline predict Hi Hz).
+Qed.
 
 (* non-vacuity: one spectator; after the run of props/C01.v's demo the spectator has been sent frames 0
    and 1 with player 1's real inputs 7, 7 (never the predictions 0, 0 the host itself simulated first) *)
